@@ -1,7 +1,19 @@
 import Blf.QueueConc
+import Blf.Pipe
+import Blf.WPipe
 /-!
 # C07 — Results are independent of thread interleaving
-(queue stage proved; stream stage and composition under construction)
+
+What is delivered is proved to be a function of the inputs alone, for every interleaving:
+* queue stage: the consumer receives exactly the objects sent, in order;
+* read pipeline: what the application has received is always a prefix of the objects the parser pushes, in the parser's
+  order, and the null result comes only after all of them;
+* write pipeline: the encoder writes the objects into the stream in the application's order, each once, and the
+  compressor cuts the stream into `total / cs` containers of `cs` bytes plus one with the remaining `total % cs` bytes.
+
+Not in these theorems: that the *bytes* the parser reads are the bytes of the stream whatever the interleaving — that is
+`C15_read` (every admitted read returns the bytes of the ghost byte string at the get position) —, and that the parser's
+program is a function of those bytes (`Blf.FileSeq`, correspondence).
 -/
 namespace Blf.Props
 open Blf.QueueConc
@@ -11,5 +23,38 @@ open Blf.QueueConc
 theorem C07_queue_result (cap : Nat) (hc : 0 < cap) (objs : List Nat) (hs : objs.length < Blf.Queue.U32MAX)
     (s : Sys) (h : Reach cap objs s) (hf : Final s) : s.got = objs :=
   final_correct objs s (reach_inv cap hc objs hs s h) hf
+
+/-- **read pipeline, order and exactly-once**, every reachable state, every interleaving -/
+theorem C07_read_pipeline_prefix (bufU : Int) (capQ : Nat) (hc : 0 < capQ) (conts : List Nat) (prog : List Pipe.POp)
+    (hs : (Pipe.qwrites prog).length < Blf.Queue.U32MAX) (s : Pipe.Sys) (h : Pipe.Reach bufU capQ conts prog s) :
+    ∃ rest, s.got ++ rest = Pipe.qwrites prog :=
+  Pipe.got_prefix bufU capQ hc conts prog hs s h
+
+/-- **read pipeline, end of file only after the last object** -/
+theorem C07_read_pipeline_eof_last (bufU : Int) (capQ : Nat) (hc : 0 < capQ) (conts : List Nat) (prog : List Pipe.POp)
+    (hs : (Pipe.qwrites prog).length < Blf.Queue.U32MAX) (s : Pipe.Sys) (h : Pipe.Reach bufU capQ conts prog s)
+    (hn : s.sawNull = true) : s.got = Pipe.qwrites prog :=
+  Pipe.null_after_all bufU capQ hc conts prog hs s h hn
+
+/-- **write pipeline, the same stream and the same containers under every interleaving** -/
+theorem C07_write_pipeline_result (sz : Nat → Nat) (bufU : Int) (capQ : Nat) (hc : 0 < capQ) (cs : Nat) (hcs : 0 < cs)
+    (objs : List Nat) (hs : objs.length < Blf.Queue.U32MAX) (hb : (WPipe.total sz objs : Int) + cs < Blf.UFile.I64MAX)
+    (s : WPipe.Sys) (h : WPipe.Reach sz bufU capQ cs objs s) (hf : WPipe.Final s) :
+    s.wr = objs ∧ s.outs = List.replicate (WPipe.total sz objs / cs) cs ++ [WPipe.total sz objs % cs] := by
+  have hi := WPipe.reach_inv sz bufU capQ hc cs hcs objs hs hb s h
+  have hcs' : s.cs = cs := by
+    clear hf hi
+    induction h with
+    | init => rfl
+    | step s t _ hst ih => rw [WPipe.cs_const sz s t hst, ih]
+  have := WPipe.final_containers sz objs s hi hf
+  rw [hcs'] at this
+  exact this
+
+/-- the written prefix at every moment -/
+theorem C07_write_pipeline_prefix (sz : Nat → Nat) (bufU : Int) (capQ : Nat) (hc : 0 < capQ) (cs : Nat) (hcs : 0 < cs)
+    (objs : List Nat) (hs : objs.length < Blf.Queue.U32MAX) (hb : (WPipe.total sz objs : Int) + cs < Blf.UFile.I64MAX)
+    (s : WPipe.Sys) (h : WPipe.Reach sz bufU capQ cs objs s) : ∃ rest, s.wr ++ rest = objs :=
+  (WPipe.written_prefix sz objs s (WPipe.reach_inv sz bufU capQ hc cs hcs objs hs hb s h)).1
 
 end Blf.Props
